@@ -324,14 +324,18 @@ def run_ep_job(binary, wd, name, job, res):
             break
         m = re.search(r"LEAK (\{.*?\}) KAEL", out, re.S)
         info = dict(rc=rc, index=last_index, tail=out[-2500:])
+        if "EPHANG" in out:
+            info["hang"] = True
         if m:
             try:
                 info["leak"] = json.loads(m.group(1))
             except Exception:
                 pass
         deaths.append(info)
-        if job["family"] != "ep-random" or last_index is None:
+        if last_index is None or (job["family"] != "ep-random" and not info.get("hang")):
             break
+        if sum(1 for d in deaths if d.get("hang")) >= 2:
+            break       # goroutines stuck inside panrpc in scenario after scenario: no point in going on
         offset = last_index + 1
         if offset >= n:
             break
@@ -386,13 +390,21 @@ def check(res, tier, seed):
     # as a broken run when nothing else explains it
     for d in deaths:
         leak = d.get("leak")
-        if leak and pid in ("C15", "C05", "C03"):
+        if d.get("hang"):
+            monitor_hits += 1
+            case = None
+            if d["family"] == "corpus" and d.get("index") is not None and d["index"] < len(corpus):
+                case = dict(name=corpus[d["index"]].get("_name"), calls=corpus[d["index"]]["calls"], choices=corpus[d["index"]]["choices"])
+            res.violation("ep-hang", "implementation violates %s on a concrete schedule: the scenario never finishes - a goroutine of panrpc is stuck (on a mutex: it is neither parked at a yield point nor blocked in a select) and nothing any other goroutine does releases it (family %s, case %s)" % (pid, d["family"], d.get("index")),
+                          dict(kind="ep", family=d["family"], index=d.get("index"), case=case, output=d["tail"]))
+        elif leak and pid in ("C15", "C05", "C03"):
             monitor_hits += 1
             res.violation("ep-leak", "goroutines started by panrpc never exit after teardown: %s" % leak.get("leaked"),
                           dict(kind="ep", calls=leak.get("calls"), choices=leak.get("choices"), leaked=leak.get("leaked")))
-        elif not leak and pid in ("C05", "C06"):
+        elif not leak:
             monitor_hits += 1
-            res.violation("ep-crash", "the process running the scenario died: %s" % (d["tail"].strip().splitlines() or ["?"])[-1][:300],
+            line = next((l for l in d["tail"].splitlines() if l.startswith("panic:") or "fatal error" in l), (d["tail"].strip().splitlines() or ["?"])[-1])
+            res.violation("ep-crash", "implementation violates %s on a concrete schedule: the process running the scenario died (family %s, case %s): %s" % (pid, d["family"], d.get("index"), line[:300]),
                           dict(kind="ep", family=d["family"], index=d["index"], output=d["tail"]))
         elif not leak:
             res.violation("ep-child-died", "harness child died in family %s at case %s (see output)" % (d["family"], d["index"]),
@@ -574,7 +586,7 @@ def check(res, tier, seed):
                 monitor_hits += 1
                 res.violation("closures:" + re.sub(r"\d+", "N", vs[0])[:50], "implementation violates %s: %s" % (pid, vs[0]),
                               dict(kind="sys", family=r["family"], config=r["config"], seed=r["seed"], all=vs[:8]))
-    if pid in ("C14", "C15"):
+    if pid in ("C14", "C15", "C05"):
         # links whose context ends very early: cancelled before Link is called / from inside the connect notification
         ne = 6 if tier == "quick" else 60
         erecs, erc, eout = C.run_job(binary, wd, "earlycancel", dict(family="sys", seed=seed, n=ne, cases=["earlycancel"]), timeout=400)
@@ -583,6 +595,9 @@ def check(res, tier, seed):
             vs = list(r.get("notes") or [])
             if r.get("hang"):
                 vs = vs or ["the early-cancel scenario did not finish"]
+            if pid == "C05":
+                # deadlocks only: a handler that panicked inside an enumeration callback must not leave the registry locked
+                vs = [v for v in vs if "blocks forever" in v or "did not finish" in v or "ENUM-PANIC" in v]
             if vs:
                 monitor_hits += 1
                 res.violation("earlycancel:" + re.sub(r"\d+", "N", vs[0])[:50], "implementation violates %s: %s: %s" % (pid, r["config"], vs[0]),
@@ -653,7 +668,11 @@ def check(res, tier, seed):
     if pid in ("C03", "C05", "C12", "C15"):
         from . import locksets
         srecs2, src2, sout2 = C.run_job(binary, wd, "stress", dict(family="bcast-stress", seed=seed, n=(60000 if tier == "quick" else 1500000), params=dict(budget_s=(40 if tier == "quick" else 150))), timeout=900)
-        if src2 != 0 and pid in ("C05", "C03", "C15"):
+        hang2 = next((l for l in sout2.splitlines() if l.startswith("STRESSHANG")), None)
+        if hang2:
+            monitor_hits += 1
+            res.violation("bcast-stress-hang", "implementation violates %s: pending-call table under the real scheduler: %s" % (pid, hang2[len("STRESSHANG "):]), dict(kind="bcast-stress", output=sout2[-3000:]))
+        elif src2 != 0 and pid in ("C05", "C03", "C15"):
             monitor_hits += 1
             line = next((l for l in sout2.splitlines() if l.startswith("panic:") or "fatal error" in l), (sout2.strip().splitlines() or ["?"])[-1])
             res.violation("bcast-stress-crash", "the process died while the pending-call table was used concurrently under the real scheduler (many pending calls woken by Close while their owners free them): %s" % line[:300],
